@@ -1153,12 +1153,12 @@ func c13Check(t *rapid.T, rec *vfRecord, c c13Case) {
 
 func TestVF_C13_Duplex(t *testing.T) {
 	rec := vfRec("C13", "C13a-duplex", "generated scenarios: per side 0..3 Handshake callers, 0..4 writers (1..8 Writes of 0..40000 bytes each, or datagram calls), 1..4 readers, ConnectionState and deadline-setter goroutines, each started at a generated time or when the side's k-th transport read/write begins (first use racing with the handshake), over a real-time transport with generated yields and slow operations; honest, resumed and failing handshakes; built with -race; oracles: same Handshake result for all callers, the reader's stream is exactly the written frames (each contiguous, once, in per-writer order), chunks of concurrent readers tile the written stream, every datagram delivered once, Close unblocks the readers, no period without progress; non-trivial = more than one goroutine on a side; distinct = the case")
-	vfRapid(t, rec, "duplex", vfN(400, 12000), func(t *rapid.T) { c13Check(t, rec, c13GenDuplex(t)) })
+	vfRapid(t, rec, "duplex", vfN(400, 3200), func(t *rapid.T) { c13Check(t, rec, c13GenDuplex(t)) })
 }
 
 func TestVF_C13_Close(t *testing.T) {
 	rec := vfRec("C13", "C13b-close", "generated scenarios: 1..5 pending calls (Handshake, Read, Write, ConnectionState) on one side, started at generated points of the handshake or after it, a peer that may stall at its k-th transport write, back-pressure on the closing side's own writes, and 1..2 goroutines calling Close at a generated point; oracles: every call returns within "+c13Cap.String()+" of the first Close, later calls fail, whatever the peer received is a prefix of whole frames; built with -race; non-trivial = more than one goroutine on a side; distinct = the case")
-	vfRapid(t, rec, "close", vfN(300, 8000), func(t *rapid.T) { c13Check(t, rec, c13GenClose(t)) })
+	vfRapid(t, rec, "close", vfN(300, 2400), func(t *rapid.T) { c13Check(t, rec, c13GenClose(t)) })
 }
 
 func init() {
